@@ -96,7 +96,7 @@ def build_commit(case):
     if case["aneg"] and c.author_timezone == 0:
         c._author_timezone_neg_utc = True
     if case["gpgsig"] is not None:
-        c.gpgsig = case["gpgsig"].encode("ascii")
+        c.gpgsig = case["gpgsig"].encode("latin-1")
     if case["mergetags"]:
         c.mergetag = [Tag.from_string(_tag_raw(t, codec))
                       for t in case["mergetags"]]
@@ -364,6 +364,9 @@ _time = st.one_of(st.integers(0, 2 ** 31), st.integers(0, 10),
 _sigbody = st.lists(st.text(alphabet="ABCDwxyz0189+/=", min_size=1,
                             max_size=12), min_size=1, max_size=3).map(
                                 "\n".join)
+# signatures other tools write are not always ASCII armour
+_sigbody_raw = st.one_of(_sigbody, _sigbody, _sigbody.map(
+    lambda s: s + "\n\xe9\xff\x80 raw"))
 
 
 @st.composite
@@ -406,7 +409,7 @@ def gen_case(draw):
     if draw(st.integers(0, 2)) == 0:
         gpgsig = ("-----BEGIN PGP SIGNATURE-----\n" +
                   draw(st.sampled_from(["", "Version: GnuPG v1\n"])) + "\n" +
-                  draw(_sigbody) + "\n-----END PGP SIGNATURE-----" +
+                  draw(_sigbody_raw) + "\n-----END PGP SIGNATURE-----" +
                   draw(st.sampled_from(["", "\n"])))
     mergetags = []
     for i in range(draw(st.sampled_from([0, 0, 0, 1, 1, 2]))):
@@ -474,10 +477,121 @@ def gen_case(draw):
             "msg": msg, "missing": missing}
 
 
+# ------------------------------------------------------ roundtrip metadata
+
+def run_metadata(case, env):
+    """The --BZR-- trailer that carries what git cannot: injected into a
+    commit message and extracted again it gives back the message and the
+    supplement, and the bytes are a fixed point of extract + inject (which is
+    what byte-identical re-export of a roundtripped commit rests on)."""
+    from breezy.git import roundtrip as R
+    enc_ = case["codec"]
+    msg = case["msg"].encode(enc_)
+    sup = R.CommitSupplement()
+    if case["revid"] is not None:
+        sup.revision_id = case["revid"].encode("utf-8")
+    if case["parents"]:
+        sup.explicit_parent_ids = tuple(p.encode("utf-8")
+                                        for p in case["parents"])
+    for k, v in case["props"]:
+        sup.properties[k.encode("utf-8")] = v.encode("utf-8")
+    if case["testament"] is not None:
+        sup.verifiers[b"testament3-sha1"] = case["testament"].encode("ascii")
+    colon = any(":" in k for k, v in case["props"])
+    raw = R.inject_bzr_metadata(msg, sup, enc_)
+    check(isinstance(raw, bytes), "C34/injected-message-not-bytes", [case])
+    empty = not (case["revid"] or case["parents"] or case["props"] or
+                 case["testament"])
+    if empty:
+        # nothing to carry: the message stays as it is
+        check(raw == msg, "C34/empty-supplement-changes-message",
+              [case, repr(raw)])
+        return trivial()
+    check(raw.startswith(msg + b"\n--BZR--\n"),
+          "C34/injected-trailer-not-appended", [case, repr(raw)])
+    try:
+        back_msg, back = R.extract_bzr_metadata(raw)
+    except ValueError:
+        if colon:
+            return violation(
+                "C34/metadata-property-name-with-colon-not-parsed",
+                [case, repr(raw)])
+        raise
+    check(back is not None, "C34/injected-metadata-not-found", [case])
+    check(back_msg == msg, "C34/metadata-extraction-changes-message",
+          [case, repr(back_msg)])
+    got = (back.revision_id, back.explicit_parent_ids,
+           dict(back.properties), dict(back.verifiers))
+    want = (sup.revision_id, sup.explicit_parent_ids, dict(sup.properties),
+            dict(sup.verifiers))
+    if got != want and colon:
+        return violation("C34/metadata-property-name-with-colon-not-parsed",
+                         [case, repr(got), repr(want)])
+    check(got[0] == want[0], "C34/metadata-revision-id-differs",
+          [case, repr(got[0])])
+    check(got[1] == want[1], "C34/metadata-parent-ids-differ",
+          [case, repr(got[1])])
+    check(got[2] == want[2], "C34/metadata-properties-differ",
+          [case, repr(got[2]), repr(want[2])])
+    check(got[3] == want[3], "C34/metadata-verifiers-differ",
+          [case, repr(got[3])])
+    again = R.inject_bzr_metadata(back_msg, back, enc_)
+    check(again == raw, "C34/metadata-bytes-not-a-fixed-point",
+          [case, repr(again), repr(raw)])
+    # a message without trailer is left alone
+    m2, none = R.extract_bzr_metadata(msg)
+    check(m2 == msg and none is None, "C34/plain-message-gets-metadata",
+          [case])
+    multi = any("\n" in v for k, v in case["props"])
+    lab = "metadata"
+    if case["parents"]:
+        lab += "+ghost-parents"
+    if multi:
+        lab += "+multi-line-property"
+    return ok(lab)
+
+
+_PROPNAME = st.one_of(
+    st.sampled_from(["branch-nick", "authors", "bugs", "rebase-of",
+                     "deb-md5", "x"]),
+    st.text(alphabet="abcz-_.09", min_size=1, max_size=8),
+    st.sampled_from(["hg:extra:branch", "svn:revno"]))
+_PROPVAL = st.one_of(
+    st.sampled_from(["", "trunk", "a b", " lead", "trail ", "l1\nl2",
+                     "l1\n\nl3", "ends\n", "\n", "k: v", "\xe9\u65e5"]),
+    st.text(alphabet="ab :\n\xe9-", max_size=10))
+_REVIDS = st.one_of(
+    st.sampled_from(["joe@example.com-20110101120000-abcdef",
+                     "rev-\xe9-1", "svn-v4:uuid:trunk:12"]),
+    st.text(alphabet="abc019@.-:\xe9", min_size=1, max_size=12))
+
+
+@st.composite
+def gen_metadata(draw):
+    codec = draw(st.sampled_from(["utf-8", "utf-8", "latin-1"]))
+    alpha = U8_NAME if codec == "utf-8" else L1_NAME
+    msg = draw(st.text(alphabet=alpha + " \n", max_size=16))
+    if "\n--BZR--\n" in msg:
+        msg = "m"
+    props = draw(st.lists(st.tuples(_PROPNAME, _PROPVAL), max_size=4,
+                          unique_by=lambda t: t[0]))
+    return {"codec": codec, "msg": msg,
+            "revid": draw(st.one_of(st.none(), _REVIDS)),
+            "parents": draw(st.one_of(
+                st.just([]), st.just([]),
+                st.lists(_REVIDS, min_size=1, max_size=3))),
+            "props": [list(p) for p in props],
+            "testament": draw(st.one_of(
+                st.none(), st.text(alphabet="0123456789abcdef", min_size=40,
+                                   max_size=40)))}
+
+
 def kinds(tier):
     return [
         Kind("commit-grammar", run, strategy=gen_case(),
              examples={"quick": 12000, "thorough": 800000}),
+        Kind("roundtrip-metadata", run_metadata, strategy=gen_metadata(),
+             examples={"quick": 3000, "thorough": 100000}),
     ]
 
 
